@@ -1,220 +1,29 @@
 /-
-  Every extracted skeleton (GV.Generated.Orch, regenerated from engine/gengine.go on each run)
-  is an instance of a proved template (`*_shape`, by `rfl`: the T1 obligations), hence conforms
-  to the reference semantics for every configuration (`conf_*`).
+  All twenty-one execution methods conform to the reference semantics.
 -/
-import GV.Orch.FamSelected2
-import GV.Generated.Orch
+import GV.Orch.Conf.Execute
+import GV.Orch.Conf.ExecuteWithStopTagDirect
+import GV.Orch.Conf.ExecuteSelectedRules
+import GV.Orch.Conf.ExecuteSelectedRulesWithControl
+import GV.Orch.Conf.ExecuteSelectedRulesWithControlAsGivenSortedName
+import GV.Orch.Conf.ExecuteSelectedRulesWithControlAndStopTag
+import GV.Orch.Conf.ExecuteSelectedRulesWithControlAndStopTagAsGivenSortedName
+import GV.Orch.Conf.ExecuteConcurrent
+import GV.Orch.Conf.ExecuteMixModel
+import GV.Orch.Conf.ExecuteMixModelWithStopTagDirect
+import GV.Orch.Conf.ExecuteSelectedRulesConcurrent
+import GV.Orch.Conf.ExecuteSelectedRulesMixModel
+import GV.Orch.Conf.ExecuteInverseMixModel
+import GV.Orch.Conf.ExecuteSelectedRulesInverseMixModel
+import GV.Orch.Conf.ExecuteNSortMConcurrent
+import GV.Orch.Conf.ExecuteNConcurrentMSort
+import GV.Orch.Conf.ExecuteNConcurrentMConcurrent
+import GV.Orch.Conf.ExecuteSelectedNSortMConcurrent
+import GV.Orch.Conf.ExecuteSelectedNConcurrentMSort
+import GV.Orch.Conf.ExecuteSelectedNConcurrentMConcurrent
+import GV.Orch.Conf.ExecuteDAGModel
 namespace GV.Orch.All
 open GV.Orch GV.Generated.Orch
-
-def stdArm : Arm := ⟨.collect, .cont, .retErr, .cont⟩
-def collectArm : Arm := ⟨.collect, .cont, .collect, .cont⟩
-
-theorem stdArm_strict (b : Bool) : stdArm.Strict b := by
-  cases b <;> simp [Arm.Strict, Arm.Regular, Arm.act, stdArm]
-theorem collectArm_strict (b : Bool) : collectArm.Strict b := by
-  cases b <;> simp [Arm.Strict, Arm.Regular, Arm.act, collectArm]
-theorem stdArm_halts (b : Bool) : stdArm.halts b = !b := by cases b <;> rfl
-theorem collectArm_halts (b : Bool) : collectArm.halts b = false := by cases b <;> rfl
-
-/-! ### shapes (T1 obligations) -/
-theorem Execute_shape : Execute = sortT .sortRules false false stdArm false := rfl
-theorem ExecuteWithStopTagDirect_shape : ExecuteWithStopTagDirect = sortT .sortRules false false stdArm true := rfl
-theorem ExecuteSelectedRules_shape : ExecuteSelectedRules = sortT .entities true true collectArm false := rfl
-theorem ExecuteSelectedRulesWithControl_shape :
-    ExecuteSelectedRulesWithControl = sortT .sortRules true true stdArm false := rfl
-theorem ExecuteSelectedRulesWithControlAsGivenSortedName_shape :
-    ExecuteSelectedRulesWithControlAsGivenSortedName = sortT .sortRules true false stdArm false := rfl
-theorem ExecuteSelectedRulesWithControlAndStopTag_shape :
-    ExecuteSelectedRulesWithControlAndStopTag = sortT .sortRules true true stdArm true := rfl
-theorem ExecuteSelectedRulesWithControlAndStopTagAsGivenSortedName_shape :
-    ExecuteSelectedRulesWithControlAndStopTagAsGivenSortedName = sortT .sortRules true false stdArm true := rfl
-theorem ExecuteConcurrent_shape : ExecuteConcurrent = concT := rfl
-theorem ExecuteMixModel_shape : ExecuteMixModel = mixT false := rfl
-theorem ExecuteMixModelWithStopTagDirect_shape : ExecuteMixModelWithStopTagDirect = mixT true := rfl
-theorem ExecuteSelectedRulesConcurrent_shape : ExecuteSelectedRulesConcurrent = selConcT := rfl
-theorem ExecuteSelectedRulesMixModel_shape : ExecuteSelectedRulesMixModel = selMixT := rfl
-theorem ExecuteInverseMixModel_shape : ExecuteInverseMixModel = inverseT := rfl
-theorem ExecuteSelectedRulesInverseMixModel_shape : ExecuteSelectedRulesInverseMixModel = selInverseT := rfl
-theorem ExecuteNSortMConcurrent_shape : ExecuteNSortMConcurrent = nmT .sorted .conc := rfl
-theorem ExecuteNConcurrentMSort_shape : ExecuteNConcurrentMSort = nmT .conc .sorted := rfl
-theorem ExecuteNConcurrentMConcurrent_shape : ExecuteNConcurrentMConcurrent = nmT .conc .conc := rfl
-theorem ExecuteSelectedNSortMConcurrent_shape : ExecuteSelectedNSortMConcurrent = selNmT .sorted .conc := rfl
-theorem ExecuteSelectedNConcurrentMSort_shape : ExecuteSelectedNConcurrentMSort = selNmT .conc .sorted := rfl
-theorem ExecuteSelectedNConcurrentMConcurrent_shape :
-    ExecuteSelectedNConcurrentMConcurrent = selNmT .conc .conc := rfl
-theorem ExecuteDAGModel_shape : ExecuteDAGModel = dagT := rfl
-
-/-! ### conformance -/
-
-section
-variable (cfg : Cfg) (hp : Pre cfg)
-
-private theorem sort_conf (m : Method) (gsrc : Src) (hg : gsrc ≠ .selected) (sel srt : Bool) (a : Arm) (sb : Bool)
-    (hs : ∀ b, a.Strict b)
-    (hspec : ∀ cfg : Cfg, cfg.rbNil = false →
-      (match spec m cfg with | none => errObs | some st => okObs cfg st) =
-      if (srcList cfg (initSt cfg) gsrc).isEmpty then errObs
-      else if (sortOrder cfg sel srt).isEmpty then errObs
-      else okObs cfg (singletons (takeThrough (seqStop cfg (a.halts cfg.b) sb) (sortOrder cfg sel srt)))) :
-    Conforms (sortT gsrc sel srt a sb) m := by
-  intro cfg hp
-  rw [sortT_obs cfg hp gsrc hg sel srt a sb (hs _), expectObs_eq _ _ hp.flag]
-  exact (hspec cfg hp.rb).symm
-end
-
-theorem conf_Execute : Conforms Execute .Execute := by
-  rw [Execute_shape]
-  apply sort_conf _ _ (by decide) _ _ _ _ stdArm_strict
-  intro cfg hrb
-  simp only [spec, hrb, Bool.false_eq_true, ite_false, srcList, initSt, sortOrder, stdArm_halts, sortFamily]
-  cases h : cfg.sorted.isEmpty <;> simp [h]
-
-theorem conf_ExecuteWithStopTagDirect : Conforms ExecuteWithStopTagDirect .ExecuteWithStopTagDirect := by
-  rw [ExecuteWithStopTagDirect_shape]
-  apply sort_conf _ _ (by decide) _ _ _ _ stdArm_strict
-  intro cfg hrb
-  simp only [spec, hrb, Bool.false_eq_true, ite_false, srcList, initSt, sortOrder, stdArm_halts, sortFamily]
-  cases h : cfg.sorted.isEmpty <;> simp [h]
-
-theorem conf_ExecuteSelectedRules : Conforms ExecuteSelectedRules .ExecuteSelectedRules := by
-  rw [ExecuteSelectedRules_shape]
-  apply sort_conf _ _ (by decide) _ _ _ _ collectArm_strict
-  intro cfg hrb
-  simp only [spec, hrb, Bool.false_eq_true, ite_false, srcList, sortOrder, collectArm_halts, sortFamily,
-    ite_true, Bool.not_true]
-  cases h : cfg.entities.isEmpty <;> cases h2 : (selected cfg).isEmpty <;> simp [h, h2]
-
-theorem conf_ExecuteSelectedRulesWithControl :
-    Conforms ExecuteSelectedRulesWithControl .ExecuteSelectedRulesWithControl := by
-  rw [ExecuteSelectedRulesWithControl_shape]
-  apply sort_conf _ _ (by decide) _ _ _ _ stdArm_strict
-  intro cfg hrb
-  simp only [spec, hrb, Bool.false_eq_true, ite_false, srcList, sortOrder, stdArm_halts, sortFamily, ite_true]
-  cases h : cfg.sorted.isEmpty <;> cases h2 : (selected cfg).isEmpty <;> simp [h, h2]
-
-theorem conf_ExecuteSelectedRulesWithControlAsGivenSortedName :
-    Conforms ExecuteSelectedRulesWithControlAsGivenSortedName .ExecuteSelectedRulesWithControlAsGivenSortedName := by
-  rw [ExecuteSelectedRulesWithControlAsGivenSortedName_shape]
-  apply sort_conf _ _ (by decide) _ _ _ _ stdArm_strict
-  intro cfg hrb
-  simp only [spec, hrb, Bool.false_eq_true, ite_false, srcList, sortOrder, stdArm_halts, sortFamily, ite_true]
-  cases h : cfg.sorted.isEmpty <;> cases h2 : (selected cfg).isEmpty <;> simp [h, h2]
-
-theorem conf_ExecuteSelectedRulesWithControlAndStopTag :
-    Conforms ExecuteSelectedRulesWithControlAndStopTag .ExecuteSelectedRulesWithControlAndStopTag := by
-  rw [ExecuteSelectedRulesWithControlAndStopTag_shape]
-  apply sort_conf _ _ (by decide) _ _ _ _ stdArm_strict
-  intro cfg hrb
-  simp only [spec, hrb, Bool.false_eq_true, ite_false, srcList, sortOrder, stdArm_halts, sortFamily, ite_true]
-  cases h : cfg.sorted.isEmpty <;> cases h2 : (selected cfg).isEmpty <;> simp [h, h2]
-
-theorem conf_ExecuteSelectedRulesWithControlAndStopTagAsGivenSortedName :
-    Conforms ExecuteSelectedRulesWithControlAndStopTagAsGivenSortedName
-      .ExecuteSelectedRulesWithControlAndStopTagAsGivenSortedName := by
-  rw [ExecuteSelectedRulesWithControlAndStopTagAsGivenSortedName_shape]
-  apply sort_conf _ _ (by decide) _ _ _ _ stdArm_strict
-  intro cfg hrb
-  simp only [spec, hrb, Bool.false_eq_true, ite_false, srcList, sortOrder, stdArm_halts, sortFamily, ite_true]
-  cases h : cfg.sorted.isEmpty <;> cases h2 : (selected cfg).isEmpty <;> simp [h, h2]
-
-theorem conf_ExecuteConcurrent : Conforms ExecuteConcurrent .ExecuteConcurrent := by
-  intro cfg hp
-  rw [ExecuteConcurrent_shape, concT_obs cfg hp, expectObs_eq _ _ hp.flag]
-  simp only [spec, hp.rb, Bool.false_eq_true, ite_false]
-  cases h : cfg.entities.isEmpty <;> simp [h]
-
-theorem conf_ExecuteMixModel : Conforms ExecuteMixModel .ExecuteMixModel := by
-  intro cfg hp
-  rw [ExecuteMixModel_shape, mixT_obs cfg hp, expectObs_eq _ _ hp.flag]
-  simp only [spec, hp.rb, Bool.false_eq_true, ite_false]
-  cases h : cfg.sorted.isEmpty <;> simp [h]
-
-theorem conf_ExecuteMixModelWithStopTagDirect :
-    Conforms ExecuteMixModelWithStopTagDirect .ExecuteMixModelWithStopTagDirect := by
-  intro cfg hp
-  rw [ExecuteMixModelWithStopTagDirect_shape, mixT_obs cfg hp, expectObs_eq _ _ hp.flag]
-  simp only [spec, hp.rb, Bool.false_eq_true, ite_false]
-  cases h : cfg.sorted.isEmpty <;> simp [h]
-
-theorem conf_ExecuteSelectedRulesConcurrent :
-    Conforms ExecuteSelectedRulesConcurrent .ExecuteSelectedRulesConcurrent := by
-  intro cfg hp
-  rw [ExecuteSelectedRulesConcurrent_shape, selConcT_obs cfg hp, expectObs_eq _ _ hp.flag]
-  simp only [spec, hp.rb, Bool.false_eq_true, ite_false]
-  cases h : cfg.entities.isEmpty <;> cases h2 : (selected cfg).isEmpty <;> simp [h, h2]
-
-theorem conf_ExecuteSelectedRulesMixModel :
-    Conforms ExecuteSelectedRulesMixModel .ExecuteSelectedRulesMixModel := by
-  intro cfg hp
-  rw [ExecuteSelectedRulesMixModel_shape, selMixT_obs cfg hp, expectObs_eq _ _ hp.flag]
-  simp only [spec, hp.rb, Bool.false_eq_true, ite_false]
-  cases h : cfg.entities.isEmpty <;> cases h2 : (selected cfg).isEmpty <;> simp [h, h2]
-
-theorem conf_ExecuteInverseMixModel : Conforms ExecuteInverseMixModel .ExecuteInverseMixModel := by
-  intro cfg hp
-  rw [ExecuteInverseMixModel_shape, inverseT_obs cfg hp, expectObs_eq _ _ hp.flag]
-  simp only [spec, hp.rb, Bool.false_eq_true, ite_false]
-  cases h : cfg.sorted.isEmpty <;> simp [h]
-
-theorem conf_ExecuteSelectedRulesInverseMixModel :
-    Conforms ExecuteSelectedRulesInverseMixModel .ExecuteSelectedRulesInverseMixModel := by
-  intro cfg hp
-  rw [ExecuteSelectedRulesInverseMixModel_shape, selInverseT_obs cfg hp, expectObs_eq _ _ hp.flag]
-  simp only [spec, hp.rb, Bool.false_eq_true, ite_false]
-  cases h : (selected cfg).isEmpty <;> simp [h]
-
-private theorem nm_conf (m : Method) (k1 k2 : StageKind) (hk : k1 = .conc ∨ k2 = .conc)
-    (hspec : ∀ cfg : Cfg, cfg.rbNil = false → spec m cfg =
-      if nmGuardsOk cfg cfg.sorted.length then some (nmFamily cfg cfg.sorted k1 k2) else none) :
-    Conforms (nmT k1 k2) m := by
-  intro cfg hp
-  rw [nmT_obs cfg hp k1 k2 hk, expectObs_eq _ _ hp.flag, hspec cfg hp.rb]
-  cases h : nmGuardsOk cfg cfg.sorted.length <;> simp [h]
-
-theorem conf_ExecuteNSortMConcurrent : Conforms ExecuteNSortMConcurrent .ExecuteNSortMConcurrent := by
-  rw [ExecuteNSortMConcurrent_shape]
-  exact nm_conf _ _ _ (Or.inr rfl) (by intro cfg h; simp [spec, h])
-
-theorem conf_ExecuteNConcurrentMSort : Conforms ExecuteNConcurrentMSort .ExecuteNConcurrentMSort := by
-  rw [ExecuteNConcurrentMSort_shape]
-  exact nm_conf _ _ _ (Or.inl rfl) (by intro cfg h; simp [spec, h])
-
-theorem conf_ExecuteNConcurrentMConcurrent :
-    Conforms ExecuteNConcurrentMConcurrent .ExecuteNConcurrentMConcurrent := by
-  rw [ExecuteNConcurrentMConcurrent_shape]
-  exact nm_conf _ _ _ (Or.inl rfl) (by intro cfg h; simp [spec, h])
-
-private theorem selnm_conf (m : Method) (k1 k2 : StageKind) (hk : k1 = .conc ∨ k2 = .conc)
-    (hspec : ∀ cfg : Cfg, cfg.rbNil = false → spec m cfg =
-      if nmGuardsOk cfg cfg.sorted.length && decide (cfg.n + cfg.m = cfg.names.length)
-         && cfg.names.all (fun n => (lookupRule cfg.entities n).isSome)
-      then some (nmFamily cfg (sortDesc (selected cfg)) k1 k2) else none) :
-    Conforms (selNmT k1 k2) m := by
-  intro cfg hp
-  rw [selNmT_obs cfg hp k1 k2 hk, expectObs_eq _ _ hp.flag, hspec cfg hp.rb]
-  split <;> simp_all
-
-theorem conf_ExecuteSelectedNSortMConcurrent :
-    Conforms ExecuteSelectedNSortMConcurrent .ExecuteSelectedNSortMConcurrent := by
-  rw [ExecuteSelectedNSortMConcurrent_shape]
-  exact selnm_conf _ _ _ (Or.inr rfl) (by intro cfg h; simp [spec, h])
-
-theorem conf_ExecuteSelectedNConcurrentMSort :
-    Conforms ExecuteSelectedNConcurrentMSort .ExecuteSelectedNConcurrentMSort := by
-  rw [ExecuteSelectedNConcurrentMSort_shape]
-  exact selnm_conf _ _ _ (Or.inl rfl) (by intro cfg h; simp [spec, h])
-
-theorem conf_ExecuteSelectedNConcurrentMConcurrent :
-    Conforms ExecuteSelectedNConcurrentMConcurrent .ExecuteSelectedNConcurrentMConcurrent := by
-  rw [ExecuteSelectedNConcurrentMConcurrent_shape]
-  exact selnm_conf _ _ _ (Or.inl rfl) (by intro cfg h; simp [spec, h])
-
-theorem conf_ExecuteDAGModel : Conforms ExecuteDAGModel .ExecuteDAGModel := by
-  intro cfg hp
-  rw [ExecuteDAGModel_shape, dagT_obs cfg hp, expectObs_eq _ _ hp.flag]
-  simp [spec, hp.rb]
 
 /-- The skeleton extracted for a method. -/
 def skelOf : Method → Skel
